@@ -192,8 +192,11 @@ PROPS.update({
             "non-termination would show as the check's wall-clock timeout (reported as a broken obligation), stack exhaustion / allocation failure are not exhibited",
             "the harness is compiled once, in release mode with debug-assertions and overflow-checks on"],
         "timeout": 3000,
-        "explanation": "component totality theorems (c08_*_partial) plus panic/timeout exploration of construction and matching on every generated and "
-                       "degenerate case; Ok/Panic status of the modelled traversal compared with the implementation on every dumped automaton.",
+        "explanation": "Strings, matching: Theorem c08_string_run_total - on every automaton passing wf_check and arity_ok (both evaluated on every dump) "
+                       "the modelled traversal never reaches a panic site and terminates (explicit fuel bound from a weight that decreases along the "
+                       "acyclic automaton), for every host. Component totality theorems (c08_*_partial) for the toposort and retain_keys. Construction, and "
+                       "matching on matrices / port graphs: panic/timeout exploration of every generated and degenerate case; Ok/Panic status of the "
+                       "modelled traversal compared with the implementation on every dumped automaton.",
         "technique": "catch_unwind + watchdog exploration over generated and degenerate inputs; Coq totality lemmas for components"},
     "C10": {"subs": ["c10"], "level": "proof",
         "rule": "exhaustive: every ordered family of 1-3 not-equal sets over 3 (quick) / 4 (thorough) other keys on a common first key, each under "
